@@ -19,6 +19,8 @@ import (
 	f_note "github.com/transparency-dev/formats/note"
 	"github.com/transparency-dev/witness/internal/config"
 	"github.com/transparency-dev/witness/internal/distribute/rest"
+	"github.com/transparency-dev/witness/internal/verif/kit/asm"
+	"github.com/transparency-dev/witness/internal/verif/kit/asmunits"
 	"github.com/transparency-dev/witness/internal/verif/kit/ev"
 	"github.com/transparency-dev/witness/internal/verif/kit/gen"
 	"github.com/transparency-dev/witness/internal/verif/kit/refnote"
@@ -192,6 +194,14 @@ func main() {
 			pairs = append(pairs, pair{w, d})
 		}
 	}
+	asmDir := run.Scratch()
+	if err := asm.SetupTLS(asmDir); err != nil {
+		run.Inconclusive("stub bastion certificate: " + err.Error())
+		return
+	}
+	// the assembled service: a distributor read parked across an accepted update
+	run.Floor("assembled_distributor_episodes", 4)
+	run.Units("asm_distributor", run.Pick(3, 24), 3, func(unit int64, r *rand.Rand) { asmunits.Distributor(run, unit, r) })
 	run.Units("single", len(pairs), 0, func(unit int64, r *rand.Rand) {
 		cycle(run, unit, r, []string{pairs[unit].w}, []string{pairs[unit].d})
 		run.Count("pairs_single")
